@@ -1,11 +1,12 @@
 #!/bin/bash
 # usage: tools/runall.sh <quick|thorough> [ids...]  — runs checks sequentially, prints id, exit code, wall time
+root="$(cd "$(dirname "$0")/.." && pwd)"
 tier="${1:-quick}"; shift
 ids="$@"
-if [ -z "$ids" ]; then ids=$(python3 -c "import json;print(' '.join(c['property_id'] for c in json.load(open('/verif/MANIFEST.json'))['checks']))"); fi
+if [ -z "$ids" ]; then ids=$(python3 -c "import json;print(' '.join(c['property_id'] for c in json.load(open('$root/MANIFEST.json'))['checks']))"); fi
 for id in $ids; do
   s=$(date +%s)
-  out=$(cd /verif && ./check $id $tier 2>&1); rc=$?
+  out=$(cd "$root" && ./check $id $tier 2>&1); rc=$?
   e=$(date +%s)
   echo "$id rc=$rc wall=$((e-s))s $(echo "$out" | grep -E '^SUMMARY' | sed 's/SUMMARY property=[A-Z0-9]* //')"
   echo "$out" | grep -E "^VIOLATION|^INCONCLUSIVE|BUILD-FAILED" | head -5
